@@ -25,8 +25,8 @@ type Case struct {
 func gen(t *rapid.T) Case {
 	cfg := pat.GenCfg(t, true)
 	c := Case{Icpt: cfg.IcptName, Trace: rapid.IntRange(0, 4).Draw(t, "trace") == 0}
-	c.Pool = pat.GenPool(t, cfg, rapid.IntRange(3, 14).Draw(t, "npool"))
-	c.Ops = life.GenOps(t, cfg, c.Pool, rapid.IntRange(2, 30).Draw(t, "nops"),
+	c.Pool = pat.GenPool(t, cfg, rapid.IntRange(3, rig.Up(14)).Draw(t, "npool"))
+	c.Ops = life.GenOps(t, cfg, c.Pool, rapid.IntRange(2, rig.Up(30)).Draw(t, "nops"),
 		life.GenOpts{Facades: true, Hostile: true, NewMethods: true, Trace: c.Trace})
 	var parsed []*pat.Pattern
 	for _, p := range c.Pool {
